@@ -258,7 +258,7 @@ template <typename T> std::string outcome_of(future<T> &f) {
 
 // An "operation": result future + completion callback (an awaiter subscribed to that future). The coroutine's frame is
 // its only owner (through the holder in the argument guard), so it dies with the frame.
-static std::vector<void *> g_orphans;   // cores whose owner died while the future was pending: kept reachable, never freed
+static std::vector<void *> &g_orphans = *new std::vector<void *>;   // (never destroyed) cores whose owner died while the future was pending: kept reachable, never freed
 template <typename T> struct opcore : awaiter {
     future<T> result;
     int id;
